@@ -1079,12 +1079,15 @@ fn execute_item_enforced(
         let guard = &unit.guards[idx];
         let view = GraphView::new_guarded(store, guard);
 
-        // Track delta growth for write validation
-        let ops_before = delta.len();
+        // The executor runs against a delta of its own, so write validation covers exactly the
+        // operations this item emitted whatever the executor does to the delta it is handed:
+        // a rule that replaces or truncates it can neither hide its writes from the guard nor
+        // drop the operations of the items that ran before it on this worker.
+        let mut item_delta = TickDelta::new();
 
         // Execute under catch_unwind to enforce writes even on panic
         let exec_result = catch_unwind(AssertUnwindSafe(|| {
-            let mut scoped = delta.scoped(item.origin);
+            let mut scoped = item_delta.scoped(item.origin);
             (item.exec)(view, &item.scope, scoped.inner_mut());
         }));
 
@@ -1092,10 +1095,11 @@ fn execute_item_enforced(
 
         // Post-hoc write enforcement (runs whether exec succeeded or panicked)
         let check_result = catch_unwind(AssertUnwindSafe(|| {
-            for op in &delta.ops_ref()[ops_before..] {
+            for op in item_delta.ops_ref() {
                 guard.check_op(op);
             }
         }));
+        delta.append(item_delta);
 
         match (exec_panic, check_result) {
             (None, Ok(())) => {
